@@ -45,6 +45,18 @@ Theorem C12_file_roundtrip_vlen : forall name base dims elems fuel hfuel gfuel,
 Proof. exact file_roundtrip_vlen_stmt. Qed.
 Print Assumptions C12_file_roundtrip_vlen.
 
+(* the library's own resolution path for a variable-length string element (readVariableString of the compound reader and
+   Attribute.readVariableLengthString: Model/IOProgReader.v api_vlen_string = reference -> ReadGlobalHeapCollection -> object),
+   run on element i of the dataset's raw data on the image, returns elems[i] *)
+Theorem C12_file_vlen_string_reader : forall name base dims elems,
+  link_name_ok name = true -> dims_ok_vlen dims = true -> product dims = N.of_nat (length elems) ->
+  Bytes.blen (image_v2_vlen name base dims elems) < 4611686018427387904 ->
+  forall gfuel, (N.to_nat (Bytes.blen (image_v2_vlen name base dims elems) / 16) + 2 <= gfuel)%nat ->
+  forall i d, nth_error elems i = Some d ->
+  run0 (image_v2_vlen name base dims elems) (api_vlen_string SB' gfuel (rd (v_refs elems) (16 * N.of_nat i) 16)) = Ok d.
+Proof. exact elements_vlen_string. Qed.
+Print Assumptions C12_file_vlen_string_reader.
+
 (* the file ends where the last collection ends: the end-of-file address Close records in the superblock *)
 Theorem C12_file_image_length : forall name base dims elems,
   link_name_ok name = true -> dims_ok_vlen dims = true -> product dims = N.of_nat (length elems) ->
